@@ -261,7 +261,8 @@ def eval_case_file(path):
     rc, out, dt = sh(['coqc', '-noglob', '-Q', COQ, 'SV', path], timeout=3000)
     flat = re.sub(r'\s+', ' ', out)
     m = re.search(r'=\s*\(\s*(\[[^\]]*\]|nil)\s*,\s*(\[[^\]]*\]|nil)\s*\)\s*:', flat)
-    if rc != 0 or not m:
+    # the verdict is the printed pair of id lists; whether coqc could also write a .vo next to the case file is irrelevant
+    if not m or (rc != 0 and "Can't open" not in out):
         return path, None, None, out[-1500:], dt
     def ids(s):
         return [int(x) for x in re.findall(r'(\d+)', s)]
